@@ -8,6 +8,21 @@ HOOK_COMMITS = subprocess.run(
 
 # id -> (level category, technique, level text, level_note, design_ref)
 CLAIMED = {
+    "C01": ("exploration",
+            "property-based testing (proptest): generated + mutated + adversarial-by-construction byte strings into every decode entry point; oracle = no panic, name-length walker, deterministic work bound (hook counter), wall watchdog for non-termination",
+            "Every entry point that accepts network bytes is driven with valid model encodings, byte mutations of them, adversarial families built to reach the deep regions (8,190-hop pointer chains referenced by thousands of names, 127-label names, counts of 65,535, names at 253..256 octets, RDLENGTH games) and random bodies up to 65,535 octets. A panic, a decoded name over 255/63, more than 128*|b|+1024 name-decoding steps, or a call that runs over 20 s is a violation. Sampling, not proof.",
+            "Trusts the hook counter (one increment per iteration of the name-decoding loop) as the measure of work; allocation size is not examined. One known finding (quadratic work on long pointer chains) is excluded by signature and reported as KNOWN-FINDING.",
+            "DESIGN.md §7 C01"),
+    "C02": ("exploration",
+            "property-based testing (proptest) against an independent wire model: constructor-built messages and model-encoded packets round-tripped, compared by a deep comparison and RR-by-RR against the model's own RDATA octets via an independent packet splitter",
+            "Model messages covering every RDATA variant hickory has a codec for are (A) assembled through hickory's public constructors, encoded, decoded and compared field by field incl. TTL, class and exact label case, and the emitted packet is cut into RRs by the harness's own splitter and compared with the model's own encoding; (B) encoded by the harness's own encoder (three compression modes), decoded, re-encoded, re-decoded; (C) byte-mutated and, where still accepted, required to re-encode to an equal message with byte-identical RDATA for non-compressible types.",
+            "Trusts the harness's wire model (refm/wire_ref.rs, written from the RFC text). Documented normalisations: zero-octet RDATA = Update0; messages over 65,535 uncompressed octets out of domain; non-compressible RDATA that arrived with a compression pointer compared after decompression only.",
+            "DESIGN.md §7 C02"),
+    "C03": ("exploration",
+            "property-based testing (proptest): limits constructed at record boundaries and inside names/fixed fields/RDATA/OPT/TSIG; oracle = length bound, full consumption by the decoder and by an independent splitter, deep-equal prefix per section, TC iff dropped; server clause through the real front door",
+            "Model messages are encoded with BinEncoder::set_max_size(L) for limits placed where truncation logic can go wrong; the result must fail or be ≤ L, decode with no octet left over (also per the harness's own splitter), have sections that are deep-equal prefixes of the original, intact-or-dropped OPT/TSIG, and TC' = TC ∨ dropped. Server: zones whose RRsets overflow × advertised payload × UDP/TCP through VerifFrontDoor → Catalog → ResponseHandle: length ≤ max(512, advertised) / 65,535, decodes completely, ID/question echoed, TC iff answers dropped.",
+            "Sections are compared at hickory's Message level (OPT and TSIG are separate fields). One defect found here (trailing octets after truncation) was repaired by a fix: commit in /repo; its replays are regression cases.",
+            "DESIGN.md §7 C03"),
     "C04": ("exploration",
             "property-based testing (proptest) against an RFC 4034 reference order/equality model + exhaustive small-scope pair enumeration",
             "Generated names, related pairs/triples, pools, wire contexts and constructor programs are checked against an independent canonical-order / case-folded-equality model, a wire round trip at arbitrary offsets with and without compression, a text round trip for host-style names, and the 255/63 limits after every constructor step. Sampling, not proof: it reports how many distinct non-trivial cases stood behind the verdict.",
